@@ -197,10 +197,34 @@ CONVERT_TARGET = {"double": "float64", "to64": "float64", "float": "float32", "t
                   "reload_assign": None, "eval": None, "train": None, "cpu": None}
 
 
+def tensor_state(mod):
+    """Every buffer and parameter of a module by name - persistent or not
+    (state_dict() leaves non-persistent buffers out)."""
+    out = {}
+    for k, v in mod.named_buffers():
+        out["b:" + k] = v.detach().clone()
+    for k, v in mod.named_parameters():
+        out["p:" + k] = v.detach().clone()
+    return out
+
+
+def put_tensor_state(mod, state):
+    """Give `mod` the recorded buffer/parameter values (cast to its dtypes)."""
+    import torch
+    cur = {"b:" + k: v for k, v in mod.named_buffers()}
+    cur.update({"p:" + k: v for k, v in mod.named_parameters()})
+    if set(cur) != set(state) or any(cur[k].shape != state[k].shape for k in cur):
+        raise ValueError("recorded tensors do not fit this module")
+    with torch.no_grad():
+        for k, v in cur.items():
+            v.copy_(state[k])
+    return mod
+
+
 def module_state_snap(mod):
     """Buffers/parameters (values) + plain attributes of a module."""
     items = []
-    sd = mod.state_dict()
+    sd = tensor_state(mod)
     for k in sorted(sd):
         items.append((k, snap(sd[k])))
     attrs = {}
@@ -697,7 +721,7 @@ class World:
         rec["iid"] = inst.iid
         rec["mod_dtype"] = DTNAME.get(catalog.module_dtype(inst.mod))
         if self.profile == "C16":
-            rec["state"] = {k: v.detach().clone() for k, v in inst.mod.state_dict().items()}
+            rec["state"] = tensor_state(inst.mod)
         if inst.inflight > 0:
             self.stats["calls_on_shared_instance"] += 1
         mod = inst.mod
@@ -746,7 +770,7 @@ class World:
         rec["iid"] = inst.iid
         rec["mod_dtype"] = DTNAME.get(catalog.module_dtype(inst.mod))
         if self.profile == "C16":
-            rec["state"] = {k: v.detach().clone() for k, v in inst.mod.state_dict().items()}
+            rec["state"] = tensor_state(inst.mod)
         tens = [t for t in [low] + list(highs) if isinstance(t, torch.Tensor)]
         before = [(t, raw_bytes(t)) for t in tens]
         ident = (highs, len(highs), [id(e) for e in highs], list(highs))
